@@ -896,5 +896,50 @@ def r12_17(ctx):
     return r
 
 
+# R12_18_PENDING: set to True together with the /repo repair findings/pending/fix_c12_oversized_label.diff
+R12_18_STRICT = False
+
+
+def r12_18(ctx):
+    """'a channel opened in-band appears at the peer with the label, protocol ... it was created with': DCEP OPEN carries
+    both strings behind 16-bit length fields, and the writer narrows `len() as u16` and then appends ALL the bytes - a
+    label of 65541 bytes is announced as a 5-byte label followed by a protocol made of label bytes. The narrowing is
+    only right for strings that fit; so no channel may be created with a longer one. Decided: create_data_channel
+    registers a channel only on the edges label.len() <= 65535 and protocol length <= 65535."""
+    r = RuleResult("R12.18", "K1", "no data channel is created with a label or protocol that does not fit the DCEP length fields")
+    b = ctx.body("peer_connection::PeerConnection::create_data_channel")
+    r.scope.append(b.name)
+    if not R12_18_STRICT:
+        r.ok({"status": "armed together with the repair (findings/pending)"})
+        return r
+    pushes = [bi for bi, t, p in b.calls() if p and p.endswith("::push") and t["a"] and mir.has_field(b.term_operand(t["a"][0]), "data_channels")]
+    r.need("registry pushes in create_data_channel", len(pushes), 1)
+
+    def fits(what):
+        def pred(term, meaning, *_):
+            if term[0] != "bin" or term[1] not in ("Gt", "Le", "Lt", "Ge") or not isinstance(meaning, bool):
+                return False
+            a, c = term[2], term[3]
+            big = lambda x: mir.int_value(x) == 65535
+            about = lambda x: mir.has(x, lambda y: y == ("arg", "label")) if what == "label" else \
+                mir.has(x, lambda y: y == ("arg", "config") or (y[0] == "field" and y[2] == "protocol"))
+            if term[1] == "Gt" and about(a) and big(c):
+                return meaning is False
+            if term[1] == "Le" and about(a) and big(c):
+                return meaning is True
+            return False
+        return pred
+    for what in ("label", "protocol"):
+        g = core.guard_edges(b, fits(what))
+        for bi in pushes:
+            if g and core.k1(b, [bi], g)[bi] is None:
+                r.ok({"site": b.where(bi), "cut_by": "%s length <= 65535" % what})
+            else:
+                r.violate(b.name, "dcep:%s-too-long" % what, b.where(bi),
+                          "a channel is registered (and announced with DCEP OPEN) whatever the length of its %s: beyond 65535 bytes the 16-bit "
+                          "length field wraps and the peer sees a different label and protocol" % what)
+    return r
+
+
 def run(ctx):
-    return [r12_1(ctx), r12_2(ctx), r12_2b(ctx), r12_3(ctx), r12_4(ctx), r12_5(ctx), r12_7(ctx), r12_8(ctx), r12_9(ctx), r12_10(ctx), r12_11(ctx), r12_12(ctx), r12_13(ctx), r12_14(ctx), r12_15(ctx), r12_16(ctx), r12_17(ctx)]
+    return [r12_1(ctx), r12_2(ctx), r12_2b(ctx), r12_3(ctx), r12_4(ctx), r12_5(ctx), r12_7(ctx), r12_8(ctx), r12_9(ctx), r12_10(ctx), r12_11(ctx), r12_12(ctx), r12_13(ctx), r12_14(ctx), r12_15(ctx), r12_16(ctx), r12_17(ctx), r12_18(ctx)]
